@@ -1445,6 +1445,8 @@ func runC08(r *harness.Run) {
 	// would run every few hundred loads
 	defer debug.SetGCPercent(debug.SetGCPercent(400))
 	thorough := r.Thorough()
+	// load() with a reader function that itself loads, matches, sorts ...: cheap, runs first
+	reentrantFamily(r, "C08")
 	start := time.Now()
 	ctl := &c08Ctl{r: r, thorough: thorough}
 	if thorough {
